@@ -477,6 +477,190 @@ def visibility_consulted_rule(cx, rep, rid):
     rep.floor(rid, "frontend functions that take a Visibility", n, 4)
 
 
+# ---------------------------------------------------------------------------------------------------------------------
+def semantic_handoff_rule(cx, rep, rid):
+    """C07.16.  What a semantic operation computes is handed to code generation AS COMPUTED: the Runtype that leaves
+    the region which subtracts (`.diff(..)` on semantic types) and materialises (`semtype_to_runtype(..)`) derives from
+    the materialised difference - no Runtype of the OPERANDS reaches it on the syntactic side.  (Taint over the typed
+    HIR: operand bindings of type Runtype, propagated through `let` / match / loop bindings and `push` / `insert` /
+    `extend` into Runtype-typed locals; a conversion to a semantic type is the barrier.)  A member of the left operand
+    that is "kept as a reference" when it merely OVERLAPS the difference hands over a superset: `Exclude<Status |
+    "archived", "active">` still accepts "active"."""
+    F = cx.rs
+    trees = _core_trees(F)
+    n = 0
+
+    def is_rt(ty):
+        ty = ty or ""
+        return "Runtype" in ty and "SemType" not in ty and "RuntypeUUID" not in ty and "RuntypeName" not in ty
+    for g in sorted(trees):
+        t = trees[g]
+        f = F.fns[g]
+        if "/src/frontend/" not in (f.file or ""):
+            continue
+        regions = []
+        arms = [a for m in walk(t["body"]) if m["k"] == "Match" for a in m["arms"]]
+
+        def has_both(node):
+            d = any(x["k"] == "MethodCall" and x.get("method") == "diff" and "SemType" in (x.get("recv_ty") or "") for x in walk(node))
+            h = any(x["k"] in ("Call", "MethodCall") and ((x.get("method") or "") == "semtype_to_runtype" or (x.get("callee") or "").endswith("semtype_to_runtype")) for x in walk(node))
+            return d and h
+        if not has_both(t["body"]):
+            continue
+        # innermost arms that hold both, else the whole body
+        inner = [a for a in arms if has_both(a["body"]) and not any(has_both(b["body"]) for b in arms if b is not a and any(b is z for z in walk(a["body"])))]
+        if inner:
+            for a in inner:
+                regions.append((a["body"], [b for b in walk(a["pat"]) if b["k"] == "P.Binding" and is_rt(b.get("ty"))]))
+        else:
+            regions.append((t["body"], [b for p_ in t.get("params", []) for b in walk(p_) if b["k"] == "P.Binding" and is_rt(b.get("ty"))]))
+        for body, operands in regions:
+            if not operands:
+                continue
+            n += 1
+            T = {b.get("lid") for b in operands}
+
+            def tainted(e):
+                return any(x["k"] == "Path" and x.get("res") == "local" and x.get("lid") in T for x in walk(e))
+            for _ in range(6):
+                before = len(T)
+                for x in walk(body):
+                    if x["k"] in ("LetStmt", "Let") and x.get("init") is not None and tainted(x["init"]):
+                        for b in walk(x["pat"]):
+                            if b["k"] == "P.Binding" and is_rt(b.get("ty")):
+                                T.add(b.get("lid"))
+                    if x["k"] == "Match" and tainted(x["scrut"]):
+                        for a in x["arms"]:
+                            for b in walk(a["pat"]):
+                                if b["k"] == "P.Binding" and is_rt(b.get("ty")):
+                                    T.add(b.get("lid"))
+                    if x["k"] == "MethodCall" and x.get("method") in ("push", "insert", "extend", "push_back", "append") and any(tainted(a) for a in x.get("args") or []):
+                        r = x["recv"]
+                        while r["k"] in ("AddrOf", "Unary", "Field"):
+                            r = r["e"]
+                        if r["k"] == "Path" and r.get("res") == "local" and is_rt(r.get("ty")):
+                            T.add(r.get("lid"))
+                if len(T) == before:
+                    break
+            w = hirpath._Walker(F, CRATE, lambda x: False, lambda e: False, 0)
+            w.value(body, {False})
+            leaks = [e for e in w.hits if tainted(e)]
+            rep.ob(rid, "%s/difference-handed-over-as-computed" % g.rsplit("::", 1)[-1], not leaks,
+                   "%s: a Runtype of an OPERAND of the subtraction reaches the value handed to code generation (line %s) beside the materialised difference: whatever part of that operand the subtraction removed is back - `Exclude<Status | \"archived\", \"active\">` with `type Status = \"active\" | \"inactive\"` keeps the reference `Status` because it overlaps the difference, and the validator still accepts \"active\""
+                   % (g, leaks[0]["line"] if leaks else "?"), "%s:%s" % (f.file, leaks[0]["line"] if leaks else f.line), sample={"fn": g, "operands": [b.get("name") for b in operands]})
+    rep.floor(rid, "regions that subtract semantic types and materialise the result", n, 1)
+
+
+# ---------------------------------------------------------------------------------------------------------------------
+def positive_argument_rule(cx, rep, rid):
+    """C05.17.  The emptiness procedures decide `P & !N1 & .. & !Nk = empty` for ONE positive P (read exactly: declared
+    properties only) against a list of negatives (read structurally: extra properties allowed).  The two readings
+    differ, so the procedure cannot be used to compare two negatives: `exact(Ni) <= open(Nj)` does not give
+    `open(Ni) <= open(Nj)`.  Decided: at every call of such a procedure (a function of the engine that takes one atomic
+    type and a list of the same atomic type and answers a bool) the positive argument does not derive from an element
+    of a list of atomic types.  Pruning "covered" negatives with the procedure itself drops `{a: number}` next to
+    `Record<string, number>`, and `{a: number, b: string} extends {a: number} | Record<string, number>` flips to no."""
+    F = cx.rs
+    trees = _core_trees(F)
+    import re as _re
+
+    def elem_of_list(ty):
+        m = _re.search(r"(?:Vec<|\[)\s*(std::rc::Rc<[\w:]+>)", (ty or "").replace("&", ""))
+        return m.group(1) if m else None
+    procs = {}
+    for g, t in trees.items():
+        f = F.fns[g]
+        if "/src/subtyping/" not in (f.file or "") or "bool" not in (f.output or ""):
+            continue
+        ptys = []
+        for p_ in t.get("params", []):
+            bs = [b for b in walk(p_) if b["k"] == "P.Binding"]
+            ptys.append(bs[0].get("ty") if bs else "")
+        for i_, ty in enumerate(ptys):
+            el = elem_of_list(ty)
+            if el and "Atomic" in el:
+                singles = [j for j, t2 in enumerate(ptys) if j != i_ and (t2 or "").replace("&", "").strip() == el]
+                if singles:
+                    procs[g] = (singles[0], i_, el)
+    rep.floor(rid, "emptiness procedures (one atomic positive against a list of atomic negatives)", len(procs), 1)
+    n = 0
+    for g in sorted(trees):
+        t = trees[g]
+        f = F.fns[g]
+        C = Closure(t)
+        for x in walk(t["body"]):
+            if x["k"] not in ("Call", "MethodCall"):
+                continue
+            tg = _callee_gid(F, x)
+            if tg not in procs:
+                continue
+            pos_i, _neg_i, el = procs[tg]
+            args = ([x["recv"]] if x["k"] == "MethodCall" else []) + list(x.get("args") or [])
+            if pos_i >= len(args):
+                continue
+            n += 1
+            from_list = [y for y in C.nodes(args[pos_i]) if y["k"] == "Path" and y.get("res") == "local" and elem_of_list(y.get("ty")) == el]
+            rep.ob(rid, "%s->%s/positive-is-not-a-negative" % (g.rsplit("::", 1)[-1], tg.rsplit("::", 1)[-1]), not from_list,
+                   "%s calls %s with a positive that is taken out of a LIST of atomic types (`%s`, line %s): the procedure reads its positive exactly and its negatives structurally, so using it to compare two negatives decides `exact(Ni) <= open(Nj)` - `{a: number}` counts as covered by `Record<string, number>` and is pruned, after which `{a: number, b: string} extends {a: number} | Record<string, number>` is answered no"
+                   % (g, tg.rsplit("::", 1)[-1], from_list[0].get("name") if from_list else "", x["line"]), "%s:%s" % (f.file, x["line"]), sample={"caller": g, "procedure": tg})
+    rep.floor(rid, "calls of an emptiness procedure", n, 1)
+
+
+# ---------------------------------------------------------------------------------------------------------------------
+def optionality_only_rule(cx, rep, rid):
+    """C01.28.  `Required<T>` / `Partial<T>` change whether a property may be ABSENT; the property's type stays as
+    written (`-?` removes `undefined` only, and null / undefined are one value for beff).  Decided: a frontend function
+    that flips optionality (`to_required()` / `to_optional()` on the members of an object shape) builds nothing but the
+    object around them - neither it nor a local helper it hands a member to calls a Runtype constructor other than the
+    object-level ones.  A helper that rebuilds the member as a union without its nullish members makes
+    `Required<{title?: string | null}>` reject `{title: null}`."""
+    F = cx.rs
+    trees = _core_trees(F)
+    OBJECT_LEVEL = ("object", "new", "record", "clone", "inner", "to_required", "to_optional", "required", "optional")
+    n = 0
+
+    def ctor_calls(tree):
+        out = []
+        for x in walk(tree["body"]):
+            if x["k"] in ("Call", "MethodCall"):
+                cal = (x.get("callee") if x["k"] == "Call" else (x.get("resolved") or x.get("callee"))) or ""
+                if "runtype::Runtype::" in cal and (x.get("ty") or "").endswith("runtype::Runtype"):
+                    nm = cal.rsplit("::", 1)[-1]
+                    if nm not in OBJECT_LEVEL:
+                        out.append((nm, x["line"]))
+                    elif nm == "new" and not any(y["k"] == "Struct" and (y.get("def") or "").endswith("RuntypeKind::Object") for y in walk(x)):
+                        out.append((nm, x["line"]))
+        return out
+    for g in sorted(trees):
+        t = trees[g]
+        f = F.fns[g]
+        if "/src/frontend/" not in (f.file or ""):
+            continue
+        flips = [x for x in walk(t["body"]) if x["k"] == "MethodCall" and x.get("method") in ("to_required", "to_optional")]
+        # the same flip written out: `Optionality::Optional(ty) => Optionality::Required(..ty..)`
+        member_lids = {b.get("lid") for pt in walk(t["body"]) if pt["k"] == "P.TupleStruct" and "Optionality::" in (pt.get("def") or "") for b in walk(pt) if b["k"] == "P.Binding"}
+        if member_lids:
+            C_ = Closure(t)
+            for x in walk(t["body"]):
+                if x["k"] == "Call" and "Optionality::" in (x.get("callee") or "") and any(y.get("lid") in member_lids for a in x.get("args") or [] for y in C_.nodes(a) if y["k"] == "Path"):
+                    flips.append(x)
+        if not flips:
+            continue
+        n += 1
+        bad = [("%s()" % nm, ln, g) for nm, ln in ctor_calls(t)]
+        for x in walk(t["body"]):
+            if x["k"] in ("Call", "MethodCall"):
+                tg = _callee_gid(F, x)
+                if tg in trees and tg != g and not any(y["k"] == "MethodCall" and y.get("method") in ("to_required", "to_optional") for y in walk(trees[tg]["body"])):
+                    ptys = [b.get("ty") or "" for p_ in trees[tg].get("params", []) for b in walk(p_) if b["k"] == "P.Binding"]
+                    if any("Runtype" in ty or "Optionality" in ty for ty in ptys) and "Runtype" in (F.fns[tg].output or ""):
+                        bad += [("%s() in %s" % (nm, tg.rsplit("::", 1)[-1]), x["line"], tg) for nm, _ln in ctor_calls(trees[tg])]
+        rep.ob(rid, "%s/flips-optionality-only" % g.rsplit("::", 1)[-1], not bad,
+               "%s flips the optionality of object members and ALSO rebuilds a member type (%s): Required / Partial leave the member's type as written - stripping the nullish members of `field?: T | null` makes `Required<..>` reject `{field: null}`, a member of the declared type"
+               % (g, ", ".join(sorted({b[0] for b in bad}))), "%s:%s" % (f.file, bad[0][1] if bad else f.line), sample={"fn": g, "flips": len(flips)})
+    rep.floor(rid, "frontend functions that flip the optionality of object members", n, 2)
+
+
 # =====================================================================================================================
 # TypeScript side
 import tsast
@@ -822,6 +1006,152 @@ def merge_keeps_keys_rule(cx, rep, rid):
                % (b, ts_s(in_tests[0]) if in_tests else ""), mod.loc(in_tests[0]) if in_tests else mod.loc(fn), sample={"helper": b, "in_tests": len(in_tests)})
 
 
+def reporter_visits_all_rule(cx, rep, rid):
+    """C12.13.  Whenever a value is rejected at least one error is reported: the reporter of a container walks the
+    elements its validator walks and reports those that fail.  Decided: inside a loop of a reportDecodeError method, no
+    `continue` / `break` (and no `return` that is not the method's result) is taken under conditions none of which
+    comes from VALIDATING that element (a `.validate(..)` call, a const bound to one, or a module predicate that calls
+    one).  A skip keyed by anything else - a set of labels already seen, a counter - silences the report of an element
+    the validator rejects: `Set<number>` holding `NaN` and `null` prints both as `item(null)` and reports nothing."""
+    from rules.ts_common import Family, known_conditions
+    fam = Family(cx)
+    mod = fam.mod
+    fns = _module_fns(mod)
+    validating_helpers = {n_ for n_, f_ in fns.items() if any(x["type"] == "CallExpression" and ts_s(x["callee"]).endswith(".validate") for x in twalk(f_))}
+    n = 0
+    LOOPS = ("ForOfStatement", "ForInStatement", "ForStatement", "WhileStatement", "DoWhileStatement")
+    for cname, c in sorted(fam.classes.items()):
+        m = c.methods.get("reportDecodeError")
+        if not m or m["function"].get("body") is None:
+            continue
+        fn = m["function"]
+        loops = [x for x in twalk(fn) if x["type"] in LOOPS]
+        if not loops:
+            continue
+        n += 1
+        # consts bound to a validation
+        okvars = set()
+        for d in twalk(fn):
+            if d["type"] == "VariableDeclarator" and d.get("init") is not None and _ident(d["id"]):
+                txt = ts_s(d["init"])
+                if ".validate(" in txt or any((h + "(") in txt for h in validating_helpers) or any(v in txt for v in okvars if len(v) > 1):
+                    okvars.add(_ident(d["id"]))
+        bad = []
+        for lp in loops:
+            for st in tsast.walk_no_nested_fn(lp["body"]):
+                if st["type"] in ("ContinueStatement", "BreakStatement"):
+                    # a break that belongs to a switch is not a loop exit
+                    conds = known_conditions(fn, st)
+                    inner = [c_ for c_ in conds]
+                    ok = False
+                    for txt, _pol in inner:
+                        if ".validate(" in txt or any((h + "(") in txt for h in validating_helpers) or any(re_word(v, txt) for v in okvars):
+                            ok = True
+                    # only conditions INSIDE the loop count: compare with the conditions known at the loop itself
+                    outer = {t_ for t_, _ in known_conditions(fn, lp)}
+                    inside = [(t_, p_) for t_, p_ in conds if t_ not in outer]
+                    if not inside:
+                        continue        # unconditional `continue` at the end of a body etc.
+                    if not any(".validate(" in t_ or any((h + "(") in t_ for h in validating_helpers) or any(re_word(v, t_) for v in okvars) for t_, _ in inside):
+                        bad.append((st, [t_ for t_, _ in inside]))
+        rep.ob(rid, "%s.reportDecodeError/visits-what-validate-visits" % cname, not bad,
+               "%s.reportDecodeError leaves an iteration of its loop over the input under %s - none of these comes from validating the element: an element the validator rejects can be skipped, and when it is the only one `safeParse` returns `errors: []` (and parse throws `Failed to parse T - ` with no reason): `Set<number>` holding NaN and null prints both as item(null), the second is taken for a repeat"
+               % (cname, "; ".join(sorted({t_ for b in bad for t_ in b[1]}))[:200]), mod.loc(bad[0][0]) if bad else mod.loc(fn), sample={"class": cname, "loops": len(loops)})
+    rep.floor(rid, "reporters with a loop over the input", n, 5)
+
+
+def re_word(w, txt):
+    import re as _re
+    return _re.search(r"(?<![\w.])%s(?![\w])" % _re.escape(w), txt) is not None
+
+
+def printed_type_not_edited_rule(cx, rep, rid):
+    """C15.18.  The text describe() prints for a type is produced by the type's own printer and compiles back to that
+    type.  Decided: no string surgery (`replace`, `replaceAll`, `slice`, `substring`, `substr`, `split`, `trim..`) is
+    applied to a value that holds printed type text (the result of a `describeTypeExpr(..)` / `describe(..)` call of a
+    child, a const bound to one, or a parameter of a module helper that is handed one).  A textual clean-up works on
+    the first match anywhere in the nested text: `labels?: Array<(undefined | string)>` loses the `undefined` of the
+    ARRAY ITEM, and the compiled-again validator rejects `{labels: [undefined]}`."""
+    from rules.ts_common import CODEGEN
+    mod = cx.ts(CODEGEN)
+    EDITS = ("replace", "replaceAll", "slice", "substring", "substr", "split", "trim", "trimStart", "trimEnd", "padStart", "padEnd")
+    units = []
+    for cname, c in mod.classes.items():
+        for mname, m in c.methods.items():
+            if m["function"].get("body") is not None:
+                units.append(("%s.%s" % (cname, mname), m["function"]))
+    fns = _module_fns(mod)
+    for fname, fn in fns.items():
+        units.append((fname, fn))
+
+    text_fields = set()
+
+    def is_print_call(e):
+        e = unparen(e)
+        if e.get("type") == "MemberExpression" and e["property"].get("type") == "Identifier" and e["property"]["value"] in text_fields:
+            return True          # a field of a description record that was filled with printed text
+        return e.get("type") == "CallExpression" and ts_s(e["callee"]).rsplit(".", 1)[-1] in ("describeTypeExpr", "describe")
+    for _r in range(2):
+        for _un, _fn in units:
+            loc_hold = set()
+            for d in twalk(_fn):
+                if d["type"] == "VariableDeclarator" and d.get("init") is not None and _ident(d["id"]) and is_print_call(d["init"]):
+                    loc_hold.add(_ident(d["id"]))
+            for o in twalk(_fn):
+                if o["type"] == "ObjectExpression":
+                    for pr in o["properties"]:
+                        if pr["type"] == "KeyValueProperty" and pr["key"].get("type") == "Identifier" and (is_print_call(pr["value"]) or _ident(unparen(pr["value"])) in loc_hold):
+                            text_fields.add(pr["key"]["value"])
+                        if pr["type"] == "Identifier" and pr["value"] in loc_hold:
+                            text_fields.add(pr["value"])
+    # module helpers whose parameter is handed printed text (two rounds)
+    text_params = {}
+    for _ in range(4):
+        for uname, fn in units:
+            holds = set(text_params.get(uname, set()))
+            for d in twalk(fn):
+                if d["type"] == "VariableDeclarator" and d.get("init") is not None and _ident(d["id"]):
+                    init = unparen(d["init"])
+                    if is_print_call(init) or _ident(init) in holds:
+                        holds.add(_ident(d["id"]))
+            for call in twalk(fn):
+                if call["type"] == "CallExpression" and _ident(call["callee"]) in fns:
+                    hp = _params(fns[_ident(call["callee"])])
+                    for ai, a in enumerate(call["arguments"]):
+                        ae = unparen(a["expression"])
+                        if (is_print_call(ae) or _ident(ae) in holds) and ai < len(hp) and hp[ai]:
+                            text_params.setdefault(_ident(call["callee"]), set()).add(hp[ai])
+            # fields of records that are filled with printed text (`{ typeExpr }`, `{ typeExpr: text }`)
+            for o in twalk(fn):
+                if o["type"] == "ObjectExpression":
+                    for pr in o["properties"]:
+                        if pr["type"] == "KeyValueProperty" and pr["key"].get("type") == "Identifier" and (is_print_call(pr["value"]) or _ident(unparen(pr["value"])) in holds):
+                            text_fields.add(pr["key"]["value"])
+                        if pr["type"] == "Identifier" and pr["value"] in holds:
+                            text_fields.add(pr["value"])
+            text_params[uname] = holds | text_params.get(uname, set())
+    n = 0
+    for uname, fn in sorted(units, key=lambda u: u[0]):
+        holds = text_params.get(uname, set())
+        touches = bool(holds) or any(is_print_call(x) for x in twalk(fn) if x["type"] == "CallExpression")
+        if not touches:
+            continue
+        n += 1
+        bad = []
+        for call in twalk(fn):
+            if call["type"] != "CallExpression":
+                continue
+            cal = unparen(call["callee"])
+            if cal.get("type") == "MemberExpression" and cal["property"].get("value") in EDITS:
+                recv = unparen(cal["object"])
+                if _ident(recv) in holds or is_print_call(recv):
+                    bad.append(call)
+        rep.ob(rid, "%s/printed-text-not-edited" % uname, not bad,
+               "%s edits printed type text with %s: the text of a type is what its own printer produced and is compiled back as it stands - a textual rewrite matches the first occurrence anywhere in the NESTED text (`labels?: Array<(undefined | string)>` loses the item's `undefined`; the compiled-again validator rejects what the original accepts) and changes the shape that is hashed (`note?: string | undefined` comes back without the union)"
+               % (uname, ", ".join(sorted({ts_s(b["callee"]) for b in bad}))), mod.loc(bad[0]) if bad else mod.loc(fn), sample={"unit": uname, "text_holders": sorted(holds)[:6]})
+    rep.floor(rid, "functions that hold printed type text", n, 10)
+
+
 def synthetic_name_digest_rule(cx, rep, rid):
     """C16.11 (= C02.23).  A definition name that the runtime makes up for a STRUCTURE (the variants of a discriminated
     union) is the identity of that structure inside a printing context: two different structures under one name means
@@ -922,20 +1252,29 @@ def lift_rule(cx, rep, rid, src_pid, src_rules, why):
 REGISTRY = {
     "C09": [("C09.21", "a function that takes a Visibility reads it on every path to a value exit", visibility_consulted_rule),
             ("C09.20", "every route that registers an export payload registers it in the same namespaces", registration_routes_rule)],
-    "C07": [("C07.15", "an operator over any operand evaluates the projection of every structural family and unites them", family_dispatch_rule)],
-    "C01": [("C01.27", "no answer is taken from ONE member of an intersection or union (loops / find over the members of AllOf / AnyOf)", conjunct_selection_rule)],
+    "C07": [("C07.16", "a materialised difference is handed over as computed: no operand Runtype reaches the result", semantic_handoff_rule),
+            ("C07.15", "an operator over any operand evaluates the projection of every structural family and unites them", family_dispatch_rule)],
+    "C01": [("C01.28", "Required / Partial flip optionality only: no member type is rebuilt", optionality_only_rule),
+            ("C01.27", "no answer is taken from ONE member of an intersection or union (loops / find over the members of AllOf / AnyOf)", conjunct_selection_rule)],
     "C08": [("C08.18", "the metadata of a type (descriptions from comments) decides nothing outside the printer", metadata_free_structure_rule),
             ("C08.17", "the scope of a declaration's type parameters covers every part of the declaration that is converted", declaration_scope_rule),
             ("C08.16", "no runtime class reads a property of the input through an own-only (hasOwnProperty-guarded) getter", own_only_read_rule)],
     "C03": [("C03.22", "the deep merge of parse results drops no key because of its name (no name filter, no `in` on data)", merge_keeps_keys_rule),
             ("C03.21", "a class with child validators hands back the input itself only where a test established it is not an object", composite_parse_rule)],
+    "C10": [("C10.8", "every change event reaches the compiler's registry: the watch glue forwards updates unconditionally (C14.10, C14.6 lifted) - a dropped event makes the output depend on the order in which changed files are registered",
+             lambda cx, rep, rid: lift_rule(cx, rep, rid, "C14", ["C14.10", "C14.6"], "so whether a changed file is registered depends on which change event arrives first"))],
+    "C12": [("C12.13", "a reporter's loop over the input skips an element only on the outcome of validating it", reporter_visits_all_rule)],
     "C13": [("C13.13", "a number literal is encoded with the shortest round-trip rendering only (injective on doubles)", number_encoding_rule)],
     "C02": [("C02.24", "every emitted $ref resolves: the $ref text is a pure function of the name and a definition is stored under its own name (C16.8 lifted)",
              lambda cx, rep, rid: lift_rule(cx, rep, rid, "C16", ["C16.8"], "so a $ref emitted while a name was in progress can differ from the key its definition is exported under and dangle")),
             ("C02.23", "a made-up definition name stands for one structure only: it derives from a collision-resistant digest (= C16.11)", synthetic_name_digest_rule)],
-    "C16": [("C16.11", "a made-up definition name stands for one structure only: it derives from a collision-resistant digest", synthetic_name_digest_rule),
+    "C15": [("C15.18", "printed type text is never edited as a string", printed_type_not_edited_rule)],
+    "C16": [("C16.12", "made-up definition names are a function of the type alone: hash() / hash256() keep no state on the validator instances (C13.10 lifted)",
+             lambda cx, rep, rid: lift_rule(cx, rep, rid, "C13", ["C13.10"], "so the synthetic definition names (built from hash()) depend on which parser was hashed or printed first")),
+            ("C16.11", "a made-up definition name stands for one structure only: it derives from a collision-resistant digest", synthetic_name_digest_rule),
             ("C16.10", "definition names reach the $ref text, the bookkeeping and the export verbatim", verbatim_name_rule)],
-    "C05": [("C05.16", "an index signature's value type read as the type of one admitted key is optional", undeclared_key_reading_rule)],
+    "C05": [("C05.17", "the positive argument of an emptiness procedure is never an element of a list of atomic types (negatives are not compared with it)", positive_argument_rule),
+            ("C05.16", "an index signature's value type read as the type of one admitted key is optional", undeclared_key_reading_rule)],
 }
 
 
